@@ -35,6 +35,7 @@ type unitCfg struct {
 	Harness []string   `json:"harness"`
 	Backend string     `json:"backend"`
 	Entries []entryCfg `json:"entries"`
+	Stubs   map[string]string `json:"stubs"`
 }
 
 type checkCfg struct {
@@ -142,6 +143,7 @@ type entryReport struct {
 	Violations   int            `json:"violations"`
 	CrossChecked int            `json:"paths_cross_validated_natively"`
 	SkippedGo    []string       `json:"go_statements_not_executed,omitempty"`
+	Stubs        []string       `json:"stubs_used,omitempty"`
 }
 
 func runCheck(id, tier, filter string) int {
@@ -227,6 +229,7 @@ func runCheck(id, tier, filter string) int {
 				cfg.MaxPreempt = *e.Preempt
 			}
 			cfg.InlineGo = e.InlineGo
+			cfg.Stubs = u.Stubs
 			cfg.Params = e.Quick
 			if tier == "thorough" && e.Thorough != nil {
 				cfg.Params = map[string]int{}
@@ -254,7 +257,7 @@ func runCheck(id, tier, filter string) int {
 				Discharged: res.Discharged, Trivial: res.Trivial, Unknown: res.Unknown, UnknownBr: res.UnknownBranch,
 				Queries: res.Queries, SolverS: res.SolverTime.Seconds(), WallS: res.Wall.Seconds(), Reached: res.Reached,
 				AssertSites: res.AssertSites, Aborted: res.Aborted, AbortMsgs: res.AbortMsgs, Violations: len(res.Violations),
-				SkippedGo: res.SkippedGo,
+				SkippedGo: res.SkippedGo, Stubs: res.StubsUsed,
 			}
 			fmt.Printf("[%s] %s: paths=%d infeasible=%d obligations=%d(+%d by normalisation) discharged=%d unknown=%d violations=%d queries=%d solver=%.1fs wall=%.1fs\n",
 				id, e.Name, res.Paths, res.Infeasible, res.Obligations, res.Trivial, res.Discharged, res.Unknown, len(res.Violations), res.Queries, res.SolverTime.Seconds(), res.Wall.Seconds())
